@@ -287,15 +287,19 @@ def eval : Nat → Expr → M Value
         | .bool r => pure (.bool r)
         | _ => M.internalErr .typeMismatch
       | _ => M.internalErr .typeMismatch
-    -- `??`: right operand only if the left one is nil; the result is boxed to the result type
+    -- `??` as the interpreter implements it (VisitBinaryExpression, OperationNilCoalesce):
+    -- `if some, ok := leftValue.(*SomeValue); ok { inner } else { rightValue() }` — the right operand is
+    -- evaluated whenever the left value is not a `SomeValue`.  For `nil` that is the definition; a left
+    -- value that is neither `nil` nor boxed (the interpreter does not box the result of a conditional
+    -- expression, e.g. `(c ? 1 : nil) ?? 5`) is treated like `nil` (known finding
+    -- `conditional-result-not-boxed`; the VM returns the left value there).
     | .coalesce ty a b => do
       let va ← eval n a
       match va with
       | .some v => pure (box ty v)
-      | .nil => do
+      | _ => do
         let vb ← eval n b
         pure (box ty vb)
-      | _ => M.internalErr .typeMismatch
     | .cond c t e => do
       let vc ← eval n c
       match vc with
